@@ -5,6 +5,7 @@ import (
 	"go/constant"
 	"go/token"
 	"go/types"
+	"regexp"
 	"sort"
 	"strings"
 
@@ -410,6 +411,29 @@ func checkAlgoSwitch(c *Ctx, fn *ssa.Function) {
 	c.Check(okWrite, "R2.algo", "checkSignature|digest of the signed bytes", w.FnPos(fn), "h.Write(signed)", "the digest is not computed over the to-be-signed bytes")
 }
 
+// symEnv binds the parameters of a helper being looked through to the values of the call under consideration (which
+// live in the caller's environment).
+type symEnv struct {
+	bind map[*ssa.Parameter]ssa.Value
+	up   *symEnv
+}
+
+// res resolves v through the environment chain: a bound parameter is the value handed over by the caller.
+func (e *symEnv) res(v ssa.Value) (ssa.Value, *symEnv) {
+	for i := 0; i < 8; i++ {
+		p, ok := v.(*ssa.Parameter)
+		if !ok || e == nil {
+			return v, e
+		}
+		b, bound := e.bind[p]
+		if !bound {
+			return v, e
+		}
+		v, e = b, e.up
+	}
+	return v, e
+}
+
 func checkVerifier(c *Ctx, fn *ssa.Function) {
 	w := c.w
 	f := w.Facts(fn)
@@ -459,27 +483,62 @@ func checkVerifier(c *Ctx, fn *ssa.Function) {
 		und("k = (pub.N.BitLen()+7)/8")
 		return
 	}
-	name := func(v ssa.Value) string {
+	nameE := func(v ssa.Value, env *symEnv) string {
+		la := lenArg(v)
+		if la != nil {
+			la, _ = env.res(la)
+		}
 		switch {
 		case v == k:
 			return "k"
 		case v == hLen:
 			return "hLen"
-		case lenArg(v) != nil && lenArg(v) == p1:
+		case la != nil && la == p1:
 			return "len1"
-		case lenArg(v) != nil && lenArg(v) == p2:
+		case la != nil && la == p2:
 			return "len2"
 		}
 		return ""
 	}
+	name := func(v ssa.Value) string { return nameE(v, nil) }
 	L := func(v ssa.Value) linForm { return lin(w, v, name) }
+	// LE: the linear form of v, looking through the parameters of the helpers being interpreted
+	var LE func(v ssa.Value, env *symEnv) linForm
+	LE = func(v ssa.Value, env *symEnv) linForm {
+		v, env = env.res(v)
+		if kk, ok := intConst(v); ok {
+			return linForm{c: kk, terms: map[string]int64{}}
+		}
+		if n := nameE(v, env); n != "" {
+			return linForm{terms: map[string]int64{n: 1}}
+		}
+		switch x := v.(type) {
+		case *ssa.BinOp:
+			switch x.Op {
+			case token.ADD:
+				return linAdd(LE(x.X, env), LE(x.Y, env), 1)
+			case token.SUB:
+				return linAdd(LE(x.X, env), LE(x.Y, env), -1)
+			}
+		case *ssa.Convert:
+			return LE(x.X, env)
+		}
+		return lin(w, v, name)
+	}
 	mk := func(c0 int64, ts map[string]int64) linForm { return linForm{c: c0, terms: ts} }
 	// em = leftPad(encrypt(_, pub, SetBytes(sig)).Bytes(), k)
-	var em *ssa.Call
+	var em, emWrap *ssa.Call
+	w.Focus(fn)
 	for _, call := range callsIn(fn) {
 		if cv, ok := call.(*ssa.Call); ok {
 			if callee := cv.Call.StaticCallee(); callee != nil && w.InRepo(callee) && len(cv.Call.Args) == 2 && cv.Call.Args[1] == k {
 				em = cv
+			}
+			// ... or a helper that recovers the encoded message from (key, signature, k) and pads it itself
+			if callee := w.helperOf(cv); callee != nil && em == nil && len(cv.Call.Args) == 3 && cv.Call.Args[2] == k && isByteSeq(cv.Type()) {
+				if inner, ok := w.canon(fn, cv).(*ssa.Call); ok && inner != cv && len(inner.Call.Args) == 2 && w.canon(fn, inner.Call.Args[1]) == k {
+					emWrap, em = cv, inner
+				}
 			}
 		}
 	}
@@ -488,7 +547,9 @@ func checkVerifier(c *Ctx, fn *ssa.Function) {
 	var emIns ssa.Instruction
 	var emSrc ssa.Value
 	var padFn *ssa.Function
-	if em != nil {
+	if em != nil && emWrap != nil {
+		emV, emIns, emSrc, padFn = emWrap, emWrap, em.Call.Args[0], em.Call.StaticCallee()
+	} else if em != nil {
 		emV, emIns, emSrc, padFn = em, em, em.Call.Args[0], em.Call.StaticCallee()
 	} else {
 		for _, b := range fn.Blocks {
@@ -575,7 +636,7 @@ func checkVerifier(c *Ctx, fn *ssa.Function) {
 				continue
 			}
 			if one, isK := intConst(bin.Y); isK && one == 1 && ((bin.Op == token.NEQ && !l.Pol) || (bin.Op == token.EQL && l.Pol)) {
-				if _, isPhi := bin.X.(*ssa.Phi); isPhi {
+				if _, isConst := bin.X.(*ssa.Const); !isConst && isBoolOrInt(bin.X.Type()) {
 					acc = bin.X
 				}
 			}
@@ -589,37 +650,50 @@ func checkVerifier(c *Ctx, fn *ssa.Function) {
 	type leaf struct {
 		call *ssa.Call
 		via  string // "and" | "or1" | "or2" | "loop"
+		env  *symEnv
 	}
 	var leaves []leaf
 	var ors []*ssa.BinOp
 	var loopPhi *ssa.Phi
-	var flatten func(v ssa.Value, via string)
-	seen := map[ssa.Value]bool{}
-	flatten = func(v ssa.Value, via string) {
-		if seen[v] {
+	var loopEnv *symEnv
+	loopInHelper := false
+	var flatten func(v ssa.Value, via string, env *symEnv, depth int)
+	type seenKey struct {
+		v   ssa.Value
+		env *symEnv
+	}
+	seen := map[seenKey]bool{}
+	flatten = func(v ssa.Value, via string, env *symEnv, depth int) {
+		v, env = env.res(v)
+		if seen[seenKey{v, env}] || depth > 40 {
 			return
 		}
-		seen[v] = true
+		seen[seenKey{v, env}] = true
 		switch x := v.(type) {
+		case *ssa.Const:
+			if one, ok := intConst(x); ok && one == 1 {
+				return // the neutral element of the conjunction (a helper's `ok := 1`)
+			}
 		case *ssa.BinOp:
 			switch x.Op {
 			case token.AND:
-				flatten(x.X, via)
-				flatten(x.Y, via)
+				flatten(x.X, via, env, depth+1)
+				flatten(x.Y, via, env, depth+1)
 				return
 			case token.OR:
 				if via == "and" {
 					ors = append(ors, x)
-					flatten(x.X, "or1")
-					flatten(x.Y, "or2")
+					flatten(x.X, "or1", env, depth+1)
+					flatten(x.Y, "or2", env, depth+1)
 					return
 				}
 			}
 		case *ssa.Phi:
 			if via == "and" && loopPhi == nil {
-				loopPhi = x
+				loopPhi, loopEnv = x, env
+				loopInHelper = x.Parent() != fn
 				for _, e := range x.Edges {
-					flatten(e, "and")
+					flatten(e, "and", env, depth+1)
 				}
 				return
 			}
@@ -627,16 +701,37 @@ func checkVerifier(c *Ctx, fn *ssa.Function) {
 			n := calleeName(x)
 			if n == "crypto/subtle.ConstantTimeByteEq" || n == "crypto/subtle.ConstantTimeCompare" || n == "bytes.Equal" {
 				v := via
-				if loopPhi != nil && x.Block() != emIns.Block() && via == "and" {
+				if loopPhi != nil && via == "and" && ((x.Parent() == fn && x.Block() != emIns.Block()) || (x.Parent() != fn && x.Parent() == loopPhi.Parent())) {
 					v = "loop"
 				}
-				leaves = append(leaves, leaf{x, v})
+				leaves = append(leaves, leaf{x, v, env})
 				return
+			}
+			// a helper computing part of the acceptance value: its single returned value, parameters bound to this call
+			if h := w.helperOf(x); h != nil && w.transparent(h) && h.Signature.Results().Len() == 1 && len(x.Call.Args) == len(h.Params) {
+				var rv ssa.Value
+				same := true
+				for _, r := range liveReturns(h) {
+					if rv != nil && r.Results[0] != rv {
+						same = false
+					}
+					rv = r.Results[0]
+				}
+				if rv != nil && same {
+					bind := map[*ssa.Parameter]ssa.Value{}
+					for i, p := range h.Params {
+						bind[p] = x.Call.Args[i]
+					}
+					c.Saw(h)
+					flatten(rv, via, &symEnv{bind: bind, up: env}, depth+1)
+					return
+				}
 			}
 		}
 		c.Und("R4.verifier", "verifier|acceptance operand "+w.Short(v), w.FnPos(fn), "an operand of the acceptance value is not a constant-time comparison, &, | or the loop-carried value")
 	}
-	flatten(acc, "and")
+	flatten(acc, "and", nil, 0)
+	_ = loopEnv
 	// helpers to describe a leaf
 	byteAt := func(l leaf) (idx linForm, val int64, ok bool) {
 		if calleeName(l.call) != "crypto/subtle.ConstantTimeByteEq" {
@@ -647,14 +742,17 @@ func checkVerifier(c *Ctx, fn *ssa.Function) {
 			return
 		}
 		ia, isIA := ld.X.(*ssa.IndexAddr)
-		if !isIA || ia.X != emV {
+		if !isIA {
+			return
+		}
+		if seq, _ := l.env.res(ia.X); seq != emV {
 			return
 		}
 		v, isK := intConst(l.call.Call.Args[1])
 		if !isK {
 			return
 		}
-		return L(ia.Index), v, true
+		return LE(ia.Index, l.env), v, true
 	}
 	sliceCmp := func(l leaf) (lo, hi linForm, other ssa.Value, ok bool) {
 		if calleeName(l.call) != "crypto/subtle.ConstantTimeCompare" && calleeName(l.call) != "bytes.Equal" {
@@ -662,10 +760,14 @@ func checkVerifier(c *Ctx, fn *ssa.Function) {
 		}
 		for i := 0; i < 2; i++ {
 			sl, isSl := l.call.Call.Args[i].(*ssa.Slice)
-			if !isSl || sl.X != emV || sl.Low == nil || sl.High == nil {
+			if !isSl || sl.Low == nil || sl.High == nil {
 				continue
 			}
-			return L(sl.Low), L(sl.High), l.call.Call.Args[1-i], true
+			if seq, _ := l.env.res(sl.X); seq != emV {
+				continue
+			}
+			other, _ := l.env.res(l.call.Call.Args[1-i])
+			return LE(sl.Low, l.env), LE(sl.High, l.env), other, true
 		}
 		return
 	}
@@ -720,24 +822,31 @@ func checkVerifier(c *Ctx, fn *ssa.Function) {
 				continue
 			}
 			// second admitted form: for _, b := range EM[2 : k-T-1] { ok &= b == 0xff }
-			if sl, isSl := ia.X.(*ssa.Slice); isSl && sl.X == emV && sl.Max == nil && isForwardRangeIndex(ia.Index) {
+			slSeq := ssa.Value(nil)
+			if sl, isSl := ia.X.(*ssa.Slice); isSl {
+				slSeq, _ = l.env.res(sl.X)
+			}
+			if sl, isSl := ia.X.(*ssa.Slice); isSl && slSeq == emV && sl.Max == nil && isForwardRangeIndex(ia.Index) {
 				lowOK := false
 				if lo, isK := intConst(sl.Low); sl.Low != nil && isK && lo == 2 {
 					lowOK = true
 				}
 				highOK := false
-				if sub1, ok := sl.High.(*ssa.BinOp); sl.High != nil && ok && sub1.Op == token.SUB {
-					if one, ok := intConst(sub1.Y); ok && one == 1 {
-						if sub2, ok := sub1.X.(*ssa.BinOp); ok && sub2.Op == token.SUB && sub2.X == k {
-							if tphi, ok := sub2.Y.(*ssa.Phi); ok {
-								highOK = checkTPhi(w, tphi, L, mk, ors)
+				if sl.High != nil {
+					hv, _ := l.env.res(sl.High)
+					if sub1, ok := hv.(*ssa.BinOp); ok && sub1.Op == token.SUB {
+						if one, ok := intConst(sub1.Y); ok && one == 1 {
+							if sub2, ok := sub1.X.(*ssa.BinOp); ok && sub2.Op == token.SUB && sub2.X == k {
+								if tphi, ok := sub2.Y.(*ssa.Phi); ok {
+									highOK = checkTPhi(w, tphi, L, mk, ors)
+								}
 							}
 						}
 					}
 				}
 				// the range runs over the whole sub-slice: the loop condition compares the range index with len(sub-slice)
 				full := false
-				for lit := range w.Facts(fn).At(l.call.Block()) {
+				for lit := range w.factsOf(l.call.Parent()).Local(l.call.Block()) {
 					if bin, ok := lit.V.(*ssa.BinOp); ok && bin.Op == token.LSS && lit.Pol && bin.X == ia.Index && lenArg(bin.Y) == ssa.Value(sl) {
 						full = true
 					}
@@ -755,7 +864,7 @@ func checkVerifier(c *Ctx, fn *ssa.Function) {
 				}
 				continue
 			}
-			if ia.X != emV {
+			if seq, _ := l.env.res(ia.X); seq != emV {
 				continue
 			}
 			iphi, isPhi := ia.Index.(*ssa.Phi)
@@ -775,14 +884,14 @@ func checkVerifier(c *Ctx, fn *ssa.Function) {
 			}
 			// bound: i < k - T - 1, T = phi over {tLen1 | prefix1ok==1, tLen2 | prefix2ok==1, 0}
 			boundOK := false
-			lf := w.Facts(fn)
-			for lit := range lf.At(l.call.Block()) {
+			for lit := range w.factsOf(l.call.Parent()).Local(l.call.Block()) {
 				bin, ok := lit.V.(*ssa.BinOp)
 				if !ok || bin.Op != token.LSS || !lit.Pol || bin.X != ssa.Value(iphi) {
 					continue
 				}
 				// k - T - 1
-				if sub1, ok := bin.Y.(*ssa.BinOp); ok && sub1.Op == token.SUB {
+				boundV, _ := l.env.res(bin.Y)
+				if sub1, ok := boundV.(*ssa.BinOp); ok && sub1.Op == token.SUB {
 					if one, ok := intConst(sub1.Y); ok && one == 1 {
 						if sub2, ok := sub1.X.(*ssa.BinOp); ok && sub2.Op == token.SUB && sub2.X == k {
 							if tphi, ok := sub2.Y.(*ssa.Phi); ok {
@@ -812,6 +921,10 @@ func checkVerifier(c *Ctx, fn *ssa.Function) {
 		entryOK := false
 		for _, e := range loopPhi.Edges {
 			if b, ok := e.(*ssa.BinOp); ok && b.Op == token.AND && b.Block() == emIns.Block() {
+				entryOK = true
+			}
+			// the loop sits in a helper that starts from 1 and whose result the verifier ANDs onto its conjunction
+			if one, ok := intConst(e); ok && one == 1 && loopInHelper {
 				entryOK = true
 			}
 		}
@@ -888,17 +1001,29 @@ func checkVerifierHelpers(c *Ctx, verifier, info, pad *ssa.Function) {
 					continue
 				}
 				okv := extractOfV(lk, 1)
-				good := false
+				// every return that can be reached after the lookup and may report success knows the entry was found
+				good := okv != nil
+				nAfter := 0
+				reach := ReachableAvoiding(lk, nil)
 				for _, r := range liveReturns(info) {
-					if v, known := f.KnownBool(r.Block(), okv); known && !v {
-						good = true
-						for _, lf := range w.Leaves(r.Results[3], r) {
-							if !w.NonNil(lf.Val, lf.Facts) {
-								good = false
-							}
+					if !reach(r) || len(r.Results) != 4 {
+						continue
+					}
+					nAfter++
+					mayNil := false
+					for _, lf := range w.Leaves(r.Results[3], r) {
+						if !w.NonNil(lf.Val, lf.Facts) {
+							mayNil = true
 						}
 					}
+					if !mayNil {
+						continue
+					}
+					if v, known := f.KnownBool(r.Block(), okv); !known || !v {
+						good = false
+					}
 				}
+				good = good && nAfter > 0
 				c.Check(good && w.Expr(lk.Index) == "p0", "R4.verifier", "hash info|missing identifier is an error ("+shortName(w.Expr(lk.X))+")", w.Pos(lk.Pos()), "comma-ok lookup by the hash; !ok returns an error", "a hash without a digest identifier in this table is not refused")
 			}
 		}
@@ -985,27 +1110,52 @@ func checkVerifierHelpers(c *Ctx, verifier, info, pad *ssa.Function) {
 				if sl, ok := call.Common().Args[0].(*ssa.Slice); ok && sl.High == nil && sl.Low != nil && w.Expr(call.Common().Args[1]) == "p0" {
 					lo := strings.Replace(w.Expr(sl.Low), "call<builtin:len>(makeslice<[]byte>(p1))", "p1", 1)
 					okCopy = strings.HasPrefix(lo, "(p1-phi{") && strings.Contains(lo, "call<builtin:len>(p0)") && strings.Contains(lo, "p1")
+					// the builtin: size - min(len(in), size)
+					if lo == "(p1-call<builtin:min>(call<builtin:len>(p0),p1))" || lo == "(p1-call<builtin:min>(p1,call<builtin:len>(p0)))" {
+						okCopy = true
+					}
 				}
 			}
 		}
 		c.Check(okMake && okCopy, "R4.verifier", "leftPad|pads on the left to exactly k bytes", w.FnPos(pad), "out := make([]byte,size); copy(out[size-min(len(in),size):], in)", "leftPad does not left-pad the value to exactly the modulus length")
 	}
-	// encrypt: c.Exp(m, big.NewInt(int64(pub.E)), pub.N)
-	for _, call := range callsIn(verifier) {
-		callee := call.Common().StaticCallee()
-		if callee == nil || !w.InRepo(callee) || callee.Signature.Params().Len() != 3 {
+	// the public-key operation: every m.Exp(...) on the verifier's tree raises the signature (SetBytes(sig)) to the
+	// key's own exponent modulo the key's own modulus
+	nExp := 0
+	w.Focus(verifier)
+	for _, ec := range w.callsToDeep(verifier, "(*math/big.Int).Exp") {
+		args := ec.Common().Args
+		if len(args) != 4 {
 			continue
 		}
-		c.Saw(callee)
-		ok := false
-		for _, ec := range callsTo(callee, "(*math/big.Int).Exp") {
-			args := ec.Common().Args
-			if len(args) == 4 && w.Expr(args[1]) == "p2" && w.Expr(args[2]) == "call<math/big.NewInt>(conv<int64>(p1.E))" && w.Expr(args[3]) == "p1.N" {
-				ok = true
+		nExp++
+		g := ec.Parent()
+		c.Saw(g)
+		// rendered in the verifier's frame: directly, or - for a helper that keeps its own frame - in the helper's terms
+		// with its parameters replaced by what its one call on the verifier's tree passes
+		render := func(v ssa.Value) string {
+			ex := w.ExprIn(verifier, v)
+			if g == verifier || !paramRE.MatchString(ex) || w.transparent(g) {
+				return ex
 			}
+			sites := w.sitesIn(verifier, g)
+			if len(sites) != 1 {
+				return ex
+			}
+			own := w.ExprIn(g, v)
+			return paramRE.ReplaceAllStringFunc(own, func(m string) string {
+				i := atoi(m[1:])
+				if a := sites[0].Common().Args; i < len(a) {
+					return w.ExprIn(verifier, a[i])
+				}
+				return m
+			})
 		}
-		c.Check(ok, "R4.verifier", "encrypt|m^E mod N with the key's own exponent and modulus", w.FnPos(callee), "c.Exp(m, big.NewInt(int64(pub.E)), pub.N)", "the public-key operation does not use the device key's own exponent and modulus (e.g. a hard-wired 65537)")
+		base, exp, mod := render(args[1]), render(args[2]), render(args[3])
+		ok := exp == "call<math/big.NewInt>(conv<int64>(p0.E))" && mod == "p0.N" && strings.Contains(base, "SetBytes>(") && strings.HasSuffix(base, ",p3)")
+		c.Check(ok, "R4.verifier", "encrypt|m^E mod N with the key's own exponent and modulus", w.Pos(ec.Pos()), "c.Exp(m, big.NewInt(int64(pub.E)), pub.N)", "the public-key operation does not use the device key's own exponent and modulus (e.g. a hard-wired 65537): base "+shortName(base)+", exponent "+shortName(exp)+", modulus "+shortName(mod))
 	}
+	c.Floor("R4.verifier", nExp, 1, "modular exponentiations on the verifier's tree")
 }
 
 // isHashKeyedGlobal: v is a load of a package-level map of the attestation package keyed by crypto.Hash.
@@ -1021,3 +1171,10 @@ func isHashKeyedGlobal(w *World, v ssa.Value) bool {
 	m, ok := g.Type().(*types.Pointer).Elem().Underlying().(*types.Map)
 	return ok && namedIs(m.Key(), "crypto", "Hash")
 }
+
+func isBoolOrInt(t types.Type) bool {
+	b, ok := t.Underlying().(*types.Basic)
+	return ok && b.Info()&(types.IsInteger|types.IsBoolean) != 0
+}
+
+var paramRE = regexp.MustCompile(`\bp[0-9]+\b`)
